@@ -162,3 +162,49 @@ def program(draw, depth=3):
     else:
         tail = "print(%s)\n" % e
     return {"src": PRELUDE + tail, "ctx": ctx, "ty": ty, "expr": e}
+
+
+def sign_stress():
+    """Deterministic list: every binary operator with a signed literal / signed name (with and without parentheses, doubled
+    signs, E-notation) as left and as right operand, the same forms under unary operators, as receiver, argument and index,
+    and comparisons with a parenthesised comparison as operand. (source text, type) pairs for the `init` / `print` contexts."""
+    si = ["-2", "(-2)", "-(2)", "- -2", "-(-2)", "-a", "(-a)", "-1E2", "(-1E2)", "-(a + 1)", "(-a + 1)"]
+    sf = ["-1.5", "(-1.5)", "-(1.5)", "- -1.5", "-(-1.5)", "-x", "(-x)", "-(x + 0.5)", "(-0.25)"]
+    out = []
+    for op in INT_BIN:
+        for f in si:
+            for other in ("b", "2"):
+                out.append(("%s %s %s" % (f, op, other), "I"))
+                out.append(("%s %s %s" % (other, op, f), "I"))
+        out.append(("%s %s %s" % (si[1], op, si[1]), "I"))
+    for op in FLOAT_BIN:
+        for f in sf:
+            for other in ("y", "2", "0.5"):
+                out.append(("%s %s %s" % (f, op, other), "F"))
+                if other != "2":
+                    out.append(("%s %s %s" % (other, op, f), "F"))
+        for f in si[:5]:
+            out.append(("x %s %s" % (op, f), "F"))
+    for op in CMP:
+        for f in si[:7]:
+            out.append(("%s %s b" % (f, op), "B"))
+            out.append(("b %s %s" % (op, f), "B"))
+        for f in sf[:7]:
+            if op != "=":
+                out.append(("%s %s y" % (f, op), "B"))
+                out.append(("y %s %s" % (op, f), "B"))
+    for f in si:
+        out += [("f(%s)" % f, "I"), ("g(%s, %s)" % (f, f), "I"), ("l[%s + 3]" % f, "I"), ("_not_ %s" % f, "I"), ("-%s" % f, "I"),
+                ("Obj(%s).v" % f, "I"), ("o.m(%s)" % f, "I"), ("(%s).m(1)" % f if False else "Obj(%s).m(%s)" % (f, f), "I"),
+                ("if p then %s else %s" % (f, f), "I"), ("n ? %s" % f, "I"), ("%s isa Int" % f, "B")]
+    for f in sf:
+        out += [("h(%s)" % f, "F"), ("-%s" % f, "F"), ("sqrt %s" % f.replace("-", "", 1) if False else "sqrt (%s ^ 2)" % f, "F"),
+                ("if p then %s else %s" % (f, f), "F")]
+    # comparisons and equalities whose operand is itself a comparison (Python would chain them)
+    cmps = ["a < b", "a = b", "a >= c", "x < y"]
+    for l in cmps:
+        for op in ("=", "!="):
+            out += [("(%s) %s (%s)" % (l, op, r), "B") for r in cmps[:2]]
+            out += [("(%s) %s p" % (l, op), "B"), ("p %s (%s)" % (op, l), "B")]
+        out += [("(a in l) = p", "B"), ("p = (a in l)", "B"), ("not (%s) = p" % l, "B"), ("(not %s) = p" % l, "B")]
+    return out
